@@ -109,11 +109,11 @@ def run(tier):
     bound = 2 if tier == "thorough" else 1
     sched = 0
     tasks = [(functools.partial(sched_execute, v), sched_check, bound) for v in ("graceful", "force")]
-    for v, r in zip(("graceful", "force"), scheddfs.explore_many(tasks)):
+    for v, r in zip(("graceful", "force"), (scheddfs.explore_many(tasks) if tier != "thorough" else scheddfs.explore_many_capped(tasks, 1, 600))):
         sched += r["executions"]
         for (key, detail), choices in r["violations"]:
             rep.add(Violation(key, f"[stop({v}) racing with a due reconnect, bound {bound}] choices {choices}: {detail}", {"sched": v, "choices": choices}))
-        rep.sample({"schedule_exploration": f"stop({v}) vs the I/O thread's due reconnect at line granularity", "preemption_bound": bound,
+        rep.sample({"schedule_exploration": f"stop({v}) vs the I/O thread's due reconnect at line granularity", "preemption_bound": bound, "bound_completed_without_cap": r.get("bound_completed", bound), "capped": r.get("capped", False),
                     "executions": r["executions"], "distinct_outcomes": len(r["outcomes"]), "branching_points": r["max_points"]})
     rep.cov["schedules"] = sched
     depth = 8 if tier == "thorough" else 5
